@@ -17,6 +17,8 @@ import (
 	"encoding/binary"
 	"encoding/json"
 	"fmt"
+	"github.com/mimiro-io/datahub/internal/verif/vh"
+	"github.com/mimiro-io/datahub/internal/verifhook"
 	"math/rand"
 	"os"
 	"os/exec"
@@ -62,6 +64,8 @@ func crashWriter(ctx *Ctx) error {
 		return fmt.Errorf("crashwriter needs dir=")
 	}
 	core := hub.OpenCore(dir)
+	// every successful commit of the storage engine is a crash point of its own
+	badger.VerifCommitHook = func() { verifhook.Point("badger.commit") }
 	s := &sdRun{ctx: ctx, id: "w", c: c, core: core, dir: dir, m: model.New(), vocab: gen.NewVocab(c.NIDs, 3, 3),
 		seen: map[string]bool{}, rec: map[string][]uint64{}, iids: map[string]uint64{}}
 	s.mg = &mgmtState{deletedIDs: map[uint32]string{}, everNames: map[string]bool{}}
@@ -87,6 +91,7 @@ func crashWriter(ctx *Ctx) error {
 			err = s.apply(op)
 		}
 		ctx.Out.Ack("w", i, err)
+		ctx.Out.Emit(map[string]any{"t": "commits", "op": i, "n": vh.Hits()["badger.commit"]})
 		if sleepUS > 0 {
 			time.Sleep(time.Duration(sleepUS) * time.Microsecond)
 		}
@@ -97,9 +102,9 @@ func crashWriter(ctx *Ctx) error {
 // ---------- driver
 
 type crashPlan struct {
-	Point string `json:"point"`
-	Hit   int64  `json:"hit"`
-	KillUS int   `json:"kill_us,omitempty"` // timed SIGKILL from the driver instead of a hook
+	Point  string `json:"point"`
+	Hit    int64  `json:"hit"`
+	KillUS int    `json:"kill_us,omitempty"` // timed SIGKILL from the driver instead of a hook
 }
 
 func genCrashCase(r *rand.Rand, family string) SDCase {
@@ -111,7 +116,8 @@ func genCrashCase(r *rand.Rand, family string) SDCase {
 		// drop restarts (the writer is one process)
 		var ops []SDOp
 		for _, o := range c.Ops {
-			if o.Kind != "restart" {
+			// (a catalogue replica's content depends on the run: the judge's model cannot replay it)
+			if o.Kind != "restart" && o.Kind != "replicate" {
 				ops = append(ops, o)
 			}
 		}
@@ -210,6 +216,17 @@ func pointFamily(family, point string) bool {
 	return strings.HasPrefix(point, "ds.store.") || strings.HasPrefix(point, "txn.") || strings.HasPrefix(point, "dsm.create.")
 }
 
+// opFamily: the operations whose inner commits a crash family enumerates.
+func opFamily(family, kind string) bool {
+	switch family {
+	case "mgmt":
+		return kind == "create" || kind == "delete" || kind == "rename" || kind == "gc"
+	case "compact":
+		return kind == "compact"
+	}
+	return kind == "batch" || kind == "txn" || kind == "create"
+}
+
 func runCrashCase(ctx *Ctx, r *rand.Rand, c SDCase, family, prop string, pairsPerCase, timed int) {
 	caseID := outHash(c)
 	base := ctx.NewDir("crash")
@@ -251,6 +268,47 @@ func runCrashCase(ctx *Ctx, r *rand.Rand, c SDCase, family, prop string, pairsPe
 	if pairsPerCase > 0 && len(all) > pairsPerCase {
 		all = all[:pairsPerCase]
 	}
+	// plus: kills right after the k-th commit of the storage engine, for the commits that happen inside the family's
+	// own operations (every commit but the last of an operation is a state between two of its writes)
+	var commitPlans []crashPlan
+	prev := int64(0)
+	for i := range c.Ops {
+		n, ok := dry.commits[i]
+		if !ok {
+			break
+		}
+		if opFamily(family, c.Ops[i].Kind) {
+			for h := prev + 1; h <= n; h++ {
+				commitPlans = append(commitPlans, crashPlan{Point: "badger.commit", Hit: h})
+			}
+		}
+		prev = n
+	}
+	r.Shuffle(len(commitPlans), func(i, j int) { commitPlans[i], commitPlans[j] = commitPlans[j], commitPlans[i] })
+	// the rare multi-commit operations first (rename, delete, gc, transaction)
+	rank := func(p crashPlan) int {
+		prev := int64(0)
+		for i := range c.Ops {
+			n := dry.commits[i]
+			if p.Hit > prev && p.Hit <= n {
+				switch c.Ops[i].Kind {
+				case "rename":
+					return 0
+				case "delete", "gc", "txn":
+					return 1
+				}
+				return 2
+			}
+			prev = n
+		}
+		return 3
+	}
+	sort.SliceStable(commitPlans, func(i, j int) bool { return rank(commitPlans[i]) < rank(commitPlans[j]) })
+	if pairsPerCase > 0 && len(commitPlans) > (pairsPerCase+1)/2 {
+		commitPlans = commitPlans[:(pairsPerCase+1)/2]
+	}
+	ctx.Out.Stat("crash_commit_points_available", int64(len(commitPlans)))
+	all = append(all, commitPlans...)
 	for i := 0; i < timed; i++ {
 		all = append(all, crashPlan{Point: "timed", KillUS: 200 + r.Intn(timedMaxUS)})
 	}
@@ -307,6 +365,7 @@ type writerResult struct {
 	done     bool
 	hits     map[string]int64
 	ackErr   map[int]string
+	commits  map[int]int64 // op index -> number of storage-engine commits done when the op was acknowledged
 }
 
 // runWriter starts a crashwriter sub-child. Returns its op log summary and whether it was killed.
@@ -352,7 +411,7 @@ func runWriter(ctx *Ctx, caseFile, dir, point string, hit int64, killUS int) (*w
 			return nil, false, fmt.Errorf("writer failed: %v: %s", werr, tailStr(stderr.String(), 400))
 		}
 	}
-	res := &writerResult{inflight: -1, hits: map[string]int64{}, ackErr: map[int]string{}}
+	res := &writerResult{inflight: -1, hits: map[string]int64{}, ackErr: map[int]string{}, commits: map[int]int64{}}
 	f, err := os.Open(outf)
 	if err != nil {
 		if killed {
@@ -379,6 +438,8 @@ func runWriter(ctx *Ctx, caseFile, dir, point string, hit int64, killUS int) (*w
 				res.ackErr[op] = e
 			}
 			begun = -1
+		case "commits":
+			res.commits[int(m["op"].(float64))] = int64(m["n"].(float64))
 		case "stat":
 			k, _ := m["k"].(string)
 			if strings.HasPrefix(k, "hook:") {
@@ -895,4 +956,3 @@ func postRestartWrites(ctx *Ctx, id, prop string, c SDCase, core *hub.Core, m *m
 	}
 	ctx.Out.Stat("post_restart_new_dataset_ok", 1)
 }
-
